@@ -9,6 +9,8 @@ Episode number `ord` (1, 2, ...) lasts lens[ord % len(lens)] steps; at its last 
 terminated (mode "term"), truncated (mode "trunc") or one of the two by parity of a + ord (mode "mixed").
 Agent a with leave[a] = k is terminated at step k of every episode and is absent from then on.
 reset(seed=s) sets base = s (observable in feature 1), reset() keeps it.
+With unaligned=True the truncation dict lists the agents in the reverse order of the other dicts (dicts are
+maps: a consumer must pair them by key).
 """
 from __future__ import annotations
 
@@ -110,7 +112,8 @@ class ScriptedEnv(ParallelEnv):
     metadata = {"name": "c12_scripted", "render_modes": []}
     render_mode = None
 
-    def __init__(self, eid=0, nagents=2, lens=(3,), mode="term", leave=None, kind="vector", akind="discrete"):
+    def __init__(self, eid=0, nagents=2, lens=(3,), mode="term", leave=None, kind="vector", akind="discrete",
+                 unaligned=False):
         self.eid = int(eid)
         self.nagents = int(nagents)
         self.lens = [int(x) for x in lens]
@@ -118,6 +121,7 @@ class ScriptedEnv(ParallelEnv):
         self.leave = {int(k): int(v) for k, v in (leave or {}).items()}
         self.kind = kind
         self.akind = akind
+        self.unaligned = bool(unaligned)
         self.possible_agents = [f"agent_{i}" for i in range(self.nagents)]
         self.agents = []
         self.base = 0
@@ -176,6 +180,8 @@ class ScriptedEnv(ParallelEnv):
             trunc[ag] = bool(eu)
             info[ag] = self._info(a, False)
         self.agents = [ag for ag in self.agents if not (term[ag] or trunc[ag])]
+        if self.unaligned:
+            trunc = dict(reversed(list(trunc.items())))
         return obs, rew, term, trunc, info
 
     def get_counters(self):
